@@ -276,3 +276,36 @@ def dominating_conditions(cx, func, node):
     for c in out:
         split(c)
     return res
+
+
+def executes_before(func, a, b):
+    """`a` is executed before `b` on every path that reaches `b` (structural check): in their lowest common ancestor,
+    which must be a statement list, a's statement comes first and a is unconditional inside it."""
+    ca = enclosing_chain(func, a) + [a]
+    cb = enclosing_chain(func, b) + [b]
+    i = 0
+    while i < len(ca) and i < len(cb) and ca[i] is cb[i]:
+        i += 1
+    if i == 0 or i >= len(ca) or i >= len(cb):
+        return False
+    lca = ca[i - 1]
+    if lca["kind"] != "CompoundStmt":
+        # both inside one expression / one if: order by position only when it is a call's argument list etc. - refuse
+        return False
+    st = kids(lca)
+    ia = next((k_ for k_, s_ in enumerate(st) if s_ is ca[i]), None)
+    ib = next((k_ for k_, s_ in enumerate(st) if s_ is cb[i]), None)
+    if ia is None or ib is None or ia >= ib:
+        return False
+    # a must be unconditional within its statement
+    for j in range(i, len(ca) - 1):
+        n, nxt = ca[j], ca[j + 1]
+        k = n["kind"]
+        if k == "IfStmt" and nxt is not kids(n)[0]:
+            return False
+        if k in ("ForStmt", "WhileStmt", "DoStmt", "SwitchStmt", "ConditionalOperator"):
+            if not (k == "ConditionalOperator" and nxt is kids(n)[0]):
+                return False
+        if k == "BinaryOperator" and n.get("opcode") in ("&&", "||") and nxt is not kids(n)[0]:
+            return False
+    return True
